@@ -59,6 +59,11 @@ def converter_interval(P, u, limits=None):
             return (num(c.left, 0), num(c.comparators[1], 1), True, ast.unparse(c.comparators[0]))
         # form A: lo > v or v > hi  /  v < lo or v > hi, in one test or in successive raising tests
         parts = t.values if isinstance(t, ast.BoolOp) and isinstance(t.op, ast.Or) else [t]
+        if not any(isinstance(x, ast.Compare) and len(x.ops) == 1 and isinstance(x.ops[0], (ast.Lt, ast.Gt, ast.LtE, ast.GtE))
+                   and (num(x.left, 0) is not None or num(x.comparators[0], 0) is not None or
+                        num(x.left, 1) is not None or num(x.comparators[0], 1) is not None) and
+                   not (isinstance(x.left, ast.Call) and call_text(x.left) == 'len') for x in parts):
+            continue        # a refusal that is not a range guard on the value (number of elements, ...)
         if not all(isinstance(x, ast.Compare) and len(x.ops) == 1 for x in parts):
             return ('?', ast.unparse(t))
         for c in parts:
@@ -77,6 +82,15 @@ def converter_interval(P, u, limits=None):
                 return ('?', ast.unparse(t))
             seen = True
     if not seen:
+        # the guard may sit in a helper of the same class that the converter applies to its value(s)
+        if u.cls is not None and not limits:
+            for c in own_nodes(u.node):
+                if isinstance(c, ast.Call) and isinstance(c.func, ast.Attribute) and isinstance(c.func.value, ast.Name) and \
+                        c.func.value.id in ('self', u.cls.name) and c.func.attr in u.cls.methods and \
+                        u.cls.methods[c.func.attr] is not u and c.func.attr != 'to_integer':
+                    iv = converter_interval(P, u.cls.methods[c.func.attr])
+                    if iv is not None:
+                        return iv
         return None
     return (lo, hi, False, var)
 
@@ -432,7 +446,11 @@ def run(P, R):
             R.check(r5, (lo, hi) == docs[opt], 'option %s accepted in [%g ; %g] as documented' % (opt, lo, hi),
                     'options|interval|%s' % opt, u.loc(), 'converter %s accepts [%s ; %s] but docs/configuration.rst '
                     'documents [%g ; %g] for %s' % (nm, lo, hi, docs[opt][0], docs[opt][1], opt))
-            is_float = any(isinstance(c, ast.Call) and call_text(c) == 'float' for c in own_nodes(u.node))
+            helpers = [u] + [u.cls.methods[c.func.attr] for c in own_nodes(u.node)
+                             if isinstance(c, ast.Call) and isinstance(c.func, ast.Attribute) and
+                             isinstance(c.func.value, ast.Name) and c.func.value.id in ('self', u.cls.name)
+                             and c.func.attr in u.cls.methods]
+            is_float = any(isinstance(c, ast.Call) and call_text(c) == 'float' for h in helpers for c in own_nodes(h.node))
             if is_float:
                 R.check(r5, nan_safe, 'option %s rejects NaN' % opt, 'options|nan|%s' % opt, u.loc(),
                         'converter %s tests the range with `lo > v or v > hi` on a float: NaN passes and is accepted '
